@@ -56,7 +56,7 @@ def _walk_bodies(el):
 @st.composite
 def rich_models(draw, max_bodies=4, assets=True, defaults=True, frames=True, replicate=True, contact=True,
                 custom=True, keyframes=True, compiler=True, sizes=True, visual=True, extras=True, min_meshes=0,
-                min_textures=0, usethread=None, base_kwargs=None, hull=True, memory=None, fusestatic=True):
+                min_textures=0, usethread=None, base_kwargs=None, hull=True, memory=None, fusestatic=True, muscles=True):
   kw = dict(max_bodies=max_bodies, sensors=True, mocap=True, userdata=True, cameras=True, lights=True,
             opt_kwargs=dict(sleep=False))
   kw.update(base_kwargs or {})
@@ -268,6 +268,17 @@ def rich_models(draw, max_bodies=4, assets=True, defaults=True, frames=True, rep
       if j.get('joint') is None and 'nuser_jnt' in nuser and draw(st.booleans()) and j.get('name'):
         j.set('user', fmt([draw(num(-5, 5, 1)) for _ in range(nuser['nuser_jnt'])]))
 
+  # ---------------- <freejoint/> spelling (created without defaults) for some free joints
+  for b in list(_walk_bodies(world)):
+    for j in list(b):
+      if j.tag == 'joint' and j.get('type') == 'free' and draw(st.booleans()):
+        fj = ET.Element('freejoint')
+        if j.get('name'):
+          fj.set('name', j.get('name'))
+        b.insert(list(b).index(j), fj)
+        b.remove(j)
+        labels.add('freejoint')
+
   # ---------------- defaults
   if defaults and draw(st.integers(0, 3)) != 0:
     d0 = ET.Element('default')
@@ -319,6 +330,8 @@ def rich_models(draw, max_bodies=4, assets=True, defaults=True, frames=True, rep
           ja['margin'] = fmt(draw(num(0, 0.02, 3)))
         if draw(st.integers(0, 4)) == 0:
           ja['group'] = str(draw(st.integers(0, 5)))
+        if draw(st.integers(0, 2)) == 0:
+          ja['axis'] = draw(st.sampled_from(['0 1 0', '1 0 0', '1 1 0', '0 0 1']))
         if depth >= 1 and draw(st.integers(0, 2)) == 0:
           ja[draw(st.sampled_from(['damping', 'armature', 'stiffness', 'frictionloss']))] = '0'
           labels.add('default-reset-to-builtin')
@@ -475,6 +488,65 @@ def rich_models(draw, max_bodies=4, assets=True, defaults=True, frames=True, rep
     labels.add('replicate')
     labels.add('replicate:' + shape)
 
+  # ---------------- equalities the base generator does not produce: site-based connect / weld, tendon couplings
+  if extras:
+    sn = [x.get('name') for x in world.iter('site') if x.get('name') and not x.get('name').startswith('r')]
+    tn = []
+    tsec = root.find('tendon')
+    if tsec is not None:
+      tn = [t.get('name') for t in tsec if t.get('name')]
+    new = []
+    if len(sn) >= 2 and draw(st.integers(0, 1)) == 0:
+      for kind in ('connect', 'weld'):
+        if draw(st.booleans()):
+          s1, s2 = draw(st.lists(st.sampled_from(sn), min_size=2, max_size=2, unique=True))
+          e = ET.Element(kind, name='es_' + kind, site1=s1, site2=s2)
+          if draw(st.integers(0, 3)) == 0:
+            e.set('active', 'false')
+          new.append(e)
+          labels.add('eq:%s-site' % kind)
+    if tn and draw(st.integers(0, 1)) == 0:
+      e = ET.Element('tendon', name='et0', tendon1=draw(st.sampled_from(tn)))
+      if len(tn) >= 2 and draw(st.booleans()):
+        e.set('tendon2', [t for t in tn if t != e.get('tendon1')][0])
+      e.set('polycoef', fmt([draw(num(-0.1, 0.1)), draw(num(0.5, 1.5, 1)), 0, 0, 0]))
+      new.append(e)
+      labels.add('eq:tendon')
+    if new:
+      esec = root.find('equality')
+      if esec is None:
+        esec = ET.SubElement(root, 'equality')
+      for e in new:
+        esec.append(e)
+
+  # ---------------- muscles (their length ranges are computed by the compiler, in parallel when usethread is on);
+  # they come after the other actuators, and there are at least two of them
+  if muscles and draw(st.integers(0, 2)) == 0:
+    hjel = [j for j in world.iter('joint') if j.get('type') in ('hinge', 'slide') and j.get('name')
+            and not j.get('name').startswith('r')]
+    for j in hjel:      # length ranges are taken from the joint limits (uselimit): the simulation-based search often
+      if j.get('range') is None:       # does not converge on random models
+        j.set('range', '-1 1')
+      j.set('limited', 'true')
+    hj = [j.get('name') for j in hjel]
+    if hj:
+      asec = root.find('actuator')
+      if asec is None:
+        asec = ET.SubElement(root, 'actuator')
+      if len(asec) == 0 or draw(st.booleans()):
+        ET.SubElement(asec, 'motor', name='mot_pre0', joint=hj[0])
+        ET.SubElement(asec, 'motor', name='mot_pre1', joint=hj[-1], gear='2')
+      for k in range(draw(st.integers(2, 3))):
+        mu = ET.SubElement(asec, 'muscle', name='mus%d' % k, joint=draw(st.sampled_from(hj)))
+        if draw(st.booleans()):
+          mu.set('force', fmt(draw(num(10, 200, 0))))
+      comp_el = root.find('compiler')
+      if comp_el is None:
+        comp_el = ET.Element('compiler')
+        root.insert(0, comp_el)
+      ET.SubElement(comp_el, 'lengthrange', uselimit='true')
+      labels.add('muscle')
+
   # ---------------- contact
   if contact and draw(st.integers(0, 2)) == 0:
     gn = [g.get('name') for g in world.iter('geom') if g.get('name') and not g.get('name').startswith('r')]
@@ -546,6 +618,17 @@ def add_full_key(lib, m, xml, seed):
   qpos = np.array(m.qpos0, dtype=float).copy()
   if m.nv:
     lib.mj_integratePos(m, qpos, rng.uniform(-0.5, 0.5, m.nv), 1.0)
+  if m.nq > m.nv and rng.rand() < 0.4:
+    # a key that differs from qpos0 only in coordinates with index >= nv that belong to scalar joints
+    q2 = np.array(m.qpos0, dtype=float).copy()
+    changed = False
+    for j in range(m.njnt):
+      adr = int(m.jnt_qposadr[j])
+      if int(m.jnt_type[j]) in (2, 3) and adr >= m.nv:
+        q2[adr] += round(float(rng.uniform(0.05, 0.3)), 2)
+        changed = True
+    if changed:
+      qpos = q2
   a = ['name="fullkey"', 'time="%s"' % fmt(round(float(rng.uniform(0, 3)), 2))]
   if m.nq:
     a.append('qpos="%s"' % fmt(qpos))
